@@ -1,9 +1,13 @@
 #!/bin/bash
-# confirm every seeded change that has no "confirmed" record yet (sequential; suite with 8 processes)
+# confirm every seeded change that has no "confirmed" record yet (sequential, newest round first; suite with $NP processes, niced)
 cd "$(dirname "$(readlink -f "$0")")/.."
-for d in seeded/*/; do
+NP=${NP:-6}
+for pat in '_[56]' '_[34]' '_[12]'; do
+for d in seeded/*${pat}/; do
+  [ -d "$d" ] || continue
   if ! python3 -c "import json,sys; sys.exit(0 if 'confirmed' in json.load(open('$d/meta.json')) else 1)" 2>/dev/null; then
-    echo "== $d"; python3 tools/seedtool.py confirm $d --np 8 > /tmp/confirm_$(basename $d).log 2>&1
+    echo "== $d"; nice -n 10 python3 tools/seedtool.py confirm $d --np $NP > /tmp/confirm_$(basename $d).log 2>&1; tail -3 /tmp/confirm_$(basename $d).log | head -2
   fi
+done
 done
 echo ALLDONE
